@@ -75,6 +75,16 @@ class C11(Check):
     def files_index(self, ctx):
         return {os.path.join(ctx.repo, rel): i for i, rel in enumerate(gen.FILES)}
 
+    def entries(self, recs_by_name):
+        """(file index, function name, line of the def) of every extracted mutator -> its member name"""
+        key = id(recs_by_name)
+        if getattr(self, '_entries_key', None) != key:
+            fidx = {rel: i for i, rel in enumerate(gen.FILES)}
+            self._entries = {(fidx[r['where'][0]], r['where'][1], r['where'][2]): r['member']
+                             for r in recs_by_name.values()}
+            self._entries_key = key
+        return self._entries
+
     def script_for(self, recs_by_name, obj, member):
         for k in type(obj).__mro__:
             n = '%s.%s' % (k.__name__, member)
@@ -118,7 +128,9 @@ class C11(Check):
                 selves = [target]
                 if type(target).__name__ == 'Property':
                     selves.append(target.seqs[1])
-                tracer = cr.Tracer(selves, self.files_index(ctx), rec['marks'], rec['extents'])
+                tracer = cr.Tracer(selves, self.files_index(ctx), rec['marks'], rec['extents'],
+                                   callmarks=rec.get('callmarks', ()), entries=self.entries(recs_by_name),
+                                   child_rec=lambda o, mem: self.script_for(recs_by_name, o, mem))
             outcome, exc = cr.call_mutator(target, member, args, tracer)
             after = dom.snapshot(roots)
             fp_after = {f: dom.field_fp(target, f, argnames, ids) for f in fields}
@@ -127,6 +139,7 @@ class C11(Check):
                 'outcome': outcome, 'exc': exc, 'changed': before != after,
                 'diff': dom.diff(before, after) if before != after else [],
                 'trace': tracer.trace if tracer else None, 'rec': rec,
+                'children': tracer.children if tracer else [],
                 'fields_changed': sorted(f for f in fields if fp_before[f] != fp_after[f]),
                 'served': list(fetch.served), 'target_cls': type(target).__name__, 'args': args,
                 'readonly': bool(getattr(target, '_readonly', False)), 'target': target,
@@ -272,9 +285,17 @@ class C11(Check):
             return
         want = 'ok' if outcome == 'ok' else ('roexc' if obs['readonly'] and
                                              isinstance(obs['exc'], xml.dom.NoModificationAllowedErr) else 'exc')
-        found = cs.find_bits(rec['body'], obs['trace'], want, ro=obs['readonly'])
+        # at the `call f` sites the decisions are fixed by what the child calls really did
+        calls = None
+        if rec.get('callmarks') and all(k['raised'] is not None or k['rec'] is None for k in obs['children']):
+            calls = [bool(k['raised']) for k in obs['children']]
+        found = cs.find_bits(rec['body'], obs['trace'], want, ro=obs['readonly'], calls=calls)
         if found is None and want == 'roexc':
-            found = cs.find_bits(rec['body'], obs['trace'], 'exc', ro=obs['readonly'])
+            found = cs.find_bits(rec['body'], obs['trace'], 'exc', ro=obs['readonly'], calls=calls)
+        if found is None and calls is not None:
+            found = cs.find_bits(rec['body'], obs['trace'], want, ro=obs['readonly'])
+            if found is None and want == 'roexc':
+                found = cs.find_bits(rec['body'], obs['trace'], 'exc', ro=obs['readonly'])
         if found is None:
             if outcome == 'dom' and self.region(case, obs) == 'C11-import-fetch' and False:
                 return
@@ -284,17 +305,90 @@ class C11(Check):
             return
         bits, ex, st = found
         inv = {v: k for k, v in rec['fields'].items()}
-        pending.append((case, obs, rec, bits, ex, [inv[f] for f in st.dirty()]))
+        deep = self.deep_bits(ctx, wit, obs, rec, bits, index) if rec.get('callmarks') and calls is not None else None
+        pending.append((case, obs, rec, bits, ex, [inv[f] for f in st.dirty()], deep))
+
+    def deep_bits(self, ctx, wit, obs, rec, bits, index):
+        """ownership correspondence, two levels: every decision of the target's script taken at a `call f` site is
+        replaced by the number of the child mutator that was really entered there + the decision sequence under
+        which the CHILD's script reproduces the child's own statement trace and way of ending. -> (deep bits,
+        [(script index of the child, its bits, its observed trace, raised)]) or None"""
+        pos = cs.call_positions(rec['body'], bits, ro=obs['readonly'])
+        kids = obs['children']
+        if len(pos) != len(kids):
+            ctx.disagree('child calls observed at the call sites vs `call` statements executed by the script run', wit,
+                         [(k['cls'], k['fn'], '%d:%d' % divmod(k['mark'], 100000)) for k in kids],
+                         '%d call statements on the path of script %s' % (len(pos), rec['name']))
+            return None
+        out, parts, last = [], [], 0
+        for p, k in zip(pos, kids):
+            if k['rec'] is None:
+                ctx.disagree('a call site enters a function of the child that is not an extracted mutator', wit,
+                             {'child': k['cls'], 'function': k['fn'], 'site': '%d:%d' % divmod(k['mark'], 100000)},
+                             'every `call f` runs a script of the table (T11.4)')
+                return None
+            if bool(bits[p]) != bool(k['raised']):
+                ctx.disagree('child raised vs the decision of the parent script at the call site', wit,
+                             {'child': k['rec']['name'], 'raised': k['raised']}, {'decision': bits[p]})
+                return None
+            if k['readonly']:
+                ctx.count('deep:skipped-readonly-child')
+                return None
+            cb = cs.find_bits(k['rec']['body'], k['trace'], 'exc' if k['raised'] else 'ok')
+            if cb is None:
+                ctx.disagree('child script does not admit the statement trace of the child call', wit,
+                             {'child': k['rec']['name'], 'raised': k['raised'],
+                              'trace': ['%d:%d' % divmod(t, 100000) for t in k['trace']]},
+                             'no decision sequence of script %s produces this trace' % k['rec']['name'])
+                return None
+            ci = index[k['rec']['name']]
+            out += list(bits[last:p]) + [True] * ci + [False] + list(cb[0])
+            parts.append((ci, cb[0], k['trace'], k['raised'], k['rec']['name']))
+            last = p + 1
+        out += list(bits[last:])
+        return out, parts
 
     def flush(self, ctx, pending, index):
         if not pending or not ctx.model_ok:
             return
         lines = []
-        for case, obs, rec, bits, ex, dirty in pending:
-            lines.append('run %d %d %d %s' % (index[rec['name']], 1 if obs['readonly'] else 0, 100000,
-                                              ''.join('1' if b else '0' for b in bits) or '-'))
-        out = ctx.driver(lines)
-        for (case, obs, rec, bits, ex, dirty_py), line in zip(pending, out):
+
+        def enc(bits):
+            return ''.join('1' if b else '0' for b in bits) or '-'
+        for case, obs, rec, bits, ex, dirty, deep in pending:
+            lines.append('run %d %d %d %s' % (index[rec['name']], 1 if obs['readonly'] else 0, 100000, enc(bits)))
+        dl = []
+        for case, obs, rec, bits, ex, dirty, deep in pending:
+            if deep and deep[1]:
+                dl.append('deep %d %d %d %s' % (index[rec['name']], 1 if obs['readonly'] else 0, 100000, enc(deep[0])))
+                for ci, cb, ctrace, raised, cname in deep[1]:
+                    dl.append('run %d 0 %d %s' % (ci, 100000, enc(cb)))
+        out = ctx.driver(lines + dl)
+        dout = out[len(lines):]
+        out = out[:len(lines)]
+        di = 0
+        for (case, obs, rec, bits, ex, dirty, deep), line in zip(pending, out):
+            if not (deep and deep[1]):
+                continue
+            wit = {'state': case['state'], 'path': case['path'], 'mutator': case['mutator'], 'args': case['args']}
+            dline = dout[di]
+            di += 1
+            # the two-level run (children really executed in the model) must end, trace and dirty the parent exactly as
+            # the modular run did, with every outcome consumed
+            if dline.split()[:3] != line.split()[:3] or not dline.endswith('left=0'):
+                ctx.disagree('ownership-tree run of the script vs modular run / observed execution', wit,
+                             {'modular': line, 'children': [p[4] for p in deep[1]]}, dline)
+            for ci, cb, ctrace, raised, cname in deep[1]:
+                cl = dout[di]
+                di += 1
+                parts = cl.split()
+                kv = dict(p.split('=') for p in parts[1:])
+                mtrace = [] if kv['trace'] == '-' else [int(x) for x in kv['trace'].split('.')]
+                if (parts[0] in ('exc', 'roexc')) != bool(raised) or mtrace != ctrace:
+                    ctx.disagree('Lean run of the child script vs observed child call', wit,
+                                 {'child': cname, 'raised': raised, 'trace': ctrace}, cl)
+            ctx.count('corr-deep:%d-child-calls' % len(deep[1]))
+        for (case, obs, rec, bits, ex, dirty_py, _deep), line in zip(pending, out):
             wit = {'state': case['state'], 'path': case['path'], 'mutator': case['mutator'], 'args': case['args']}
             parts = line.split()
             mexit = parts[0]
